@@ -781,3 +781,88 @@ reg(Prop("C13", "UCI driver answers every request exactly once under any command
                       "the timer / releases the mock) before the GUI waits for its bestmove; quit only as the last line",
                       "the search terminates once stop is closed and prints finitely many info lines"],
          design_ref="5/C13"))
+
+
+# ------------------------------------------------------------------------------------------------
+# C19
+
+def c19_extra(prop, res, workdir):
+    """Evidence note: the largest |float - white_relative(int)| the run observed (stream c19env)."""
+    import struct
+    prefix = os.path.join(workdir, "c19env")
+    if not os.path.exists(prefix + ".impl"):
+        return
+    mx, arg, n = -1.0, "", 0
+    desc = V.read_lines(prefix + ".desc")
+    for i, line in enumerate(V.read_lines(prefix + ".impl")):
+        t = line.split()
+        if len(t) != 10 or t[0].startswith("-"):
+            continue
+        try:
+            stm, iv = int(t[0], 16), int(t[4], 16)
+            fl = struct.unpack(">d", bytes.fromhex(t[7].zfill(16)))[0]
+        except ValueError:
+            continue
+        d = abs(fl - (iv if stm == 0 else -iv))
+        n += 1
+        if d > mx:
+            mx, arg = d, desc[i] if i < len(desc) else ""
+    res.notes.append(f"c19env: max observed |EngineRep.Eval - white_relative(Eval[Score])| = {mx:.6f} cp over {n} positions "
+                     f"(envelope 2.25; proved bound for the real-number model 2.0) at: {arg[:300]}")
+
+
+# exactly what Print Assumptions prints under the theorems of Properties/C19.v that use the real numbers
+# (Coq.Reals: the three classical axioms of the Dedekind reals; Interval tactic: primitive floats and 63-bit
+# integers with their specification axioms).  None is declared by this development; the theorems of part (b)
+# and C19_envelope_partial_int16 are closed under the global context.
+C19_AXIOMS = [
+    "ClassicalDedekindReals.sig_forall_dec", "ClassicalDedekindReals.sig_not_dec", "Classical_Prop.classic",
+    "FloatAxioms.Prim2SF_SF2Prim", "FloatAxioms.Prim2SF_valid", "FloatAxioms.SF2Prim_Prim2SF",
+    "FloatAxioms.abs_spec", "FloatAxioms.add_spec", "FloatAxioms.classify_spec",
+    "FloatAxioms.compare_spec", "FloatAxioms.div_spec", "FloatAxioms.eqb_spec",
+    "FloatAxioms.frshiftexp_spec", "FloatAxioms.ldshiftexp_spec", "FloatAxioms.ltb_spec",
+    "FloatAxioms.mul_spec", "FloatAxioms.next_down_spec", "FloatAxioms.next_up_spec",
+    "FloatAxioms.normfr_mantissa_spec", "FloatAxioms.of_uint63_spec", "FloatAxioms.opp_spec",
+    "FloatAxioms.sqrt_spec", "FloatAxioms.sub_spec", "FunctionalExtensionality.functional_extensionality_dep",
+    "PrimFloat.abs", "PrimFloat.add", "PrimFloat.classify",
+    "PrimFloat.compare", "PrimFloat.div", "PrimFloat.eqb",
+    "PrimFloat.float", "PrimFloat.frshiftexp", "PrimFloat.ldshiftexp",
+    "PrimFloat.ltb", "PrimFloat.mul", "PrimFloat.next_down",
+    "PrimFloat.next_up", "PrimFloat.normfr_mantissa", "PrimFloat.of_uint63",
+    "PrimFloat.opp", "PrimFloat.sqrt", "PrimFloat.sub",
+    "PrimInt63.add", "PrimInt63.eqb", "PrimInt63.int",
+    "PrimInt63.land", "PrimInt63.leb", "PrimInt63.lor",
+    "PrimInt63.lsl", "PrimInt63.lsr", "PrimInt63.ltb",
+    "PrimInt63.sub", "Uint63.add_spec", "Uint63.eqb_correct",
+    "Uint63.eqb_refl", "Uint63.land_spec", "Uint63.leb_spec",
+    "Uint63.lor_spec", "Uint63.lsl_spec", "Uint63.lsr_spec",
+    "Uint63.ltb_spec", "Uint63.of_to_Z", "Uint63.sub_spec",
+]
+
+reg(Prop("C19", "The tuner optimises the same evaluation the engine plays with", "Properties/C19.v",
+         [StreamCfg("c19env", 3000, 120000, judge="judge_c19env", model=False,
+                    rule="positions G1 (play-outs) / G2 (sparse, promoted material) / G4 (mutations) plus hand-made "
+                         "bare-king, insufficient-material, KNBvK and heavy-material positions, a third of them with the "
+                         "halfmove clock overridden to 1..150; each evaluated by Eval[Score] on three loadings (restored with "
+                         "hash history, without hash, board.ParseFEN) and by Eval[float64]/EngineRep.Eval with EngineCoeffs() on "
+                         "the no-hash board, the ParseFEN board and the epd.Parse board; non-trivial = not a dead-draw "
+                         "material balance; distinct by FEN"),
+          StreamCfg("c19z", 400, 20000,
+                    rule="same generator; Go Eval[Score] on the no-hash board against the wrapping int16 model eval_Z, the "
+                         "non-wrapping model eval_U and the no_wrap hypothesis of the envelope theorem"),
+          StreamCfg("c19vec", 63, 140000, judge="judge_c19vec",
+                    rule="target lists: default targets (tuner order), all fields, none, unknown name, every single field, "
+                         "random subsets in random order with duplicates and unknown names (thorough: every one of the 2^17 "
+                         "subsets and every index of the default vector); mode 0 write/read-back/TunedParams on the zero struct, "
+                         "mode 1 the finite-difference perturbation of client.go on EngineCoeffs(), mode 2 EngineCoeffs() itself; "
+                         "non-trivial = at least one target or mode 2; distinct by input")],
+         allowed_axioms=C19_AXIOMS,
+         trusted=["hooks eval/export_verif.go (VerifSigm, VerifSideOfBoard, VerifInsufficientMat), board/export_verif.go (snapshot/restore)",
+                  "tools/tuner/{tuning,epd,checksum} compiled from the working tree in a scratch module (the rest of the tuner module does not build offline)",
+                  "coefficient positions on the Go side are offsets in the memory image of the struct (unsafe), i.e. Go's declaration-order layout of a struct of float64 arrays is trusted",
+                  "modelled, not verified: reflect (field order = declaration order, Array/Float64 kinds), math.Exp, float64 arithmetic"],
+         assumptions=["float64 ~ real numbers: the IEEE-754 rounding of the <= 10^3 float operations of one evaluation (magnitudes <= 10^7) and of math.Exp "
+                      "is NOT modelled; it is far below the 0.24 cp that the 2.25 envelope leaves above the proved real-number bound 2.0 (named assumption float64_real_gap)",
+                      "halfmove clock 0..200 (|100 - clock| <= 100); outside it the taper factor exceeds 1",
+                      "no int16 overflow in the integer evaluation (hypothesis no_wrap of the partial theorem, evaluated on every case of stream c19z)"],
+         extra=c19_extra, design_ref="5/C19"))
